@@ -401,7 +401,10 @@ def validate_sshsig(data: BytesOrFilePath, sig: BytesOrFilePath,
     except PacketDecodeError:
         return False
 
-    data_to_verify = _signed_data(data, is_hashed, hash_name, namespace)
+    try:
+        data_to_verify = _signed_data(data, is_hashed, hash_name, namespace)
+    except ValueError:
+        return False
 
     if not key.verify(data_to_verify, sig):
         return False
